@@ -115,6 +115,13 @@ func genC13(r *kit.RNG) *C13Scenario {
 			Kind: kit.Pick(r, []string{"silent", "silent", "servfail", "refused", "slow"})})
 	}
 	names := []string{"www.alpha.test.", "mail.alpha.test.", "www.beta.test.", "www.sub.alpha.test.", "nx.alpha.test.", "alpha.test."}
+	for _, o := range sc.Outages {
+		if o.Zone == "sub.alpha.test." {
+			// x\.sub.alpha.test. is the single label "x.sub" under alpha.test.: a sibling of the
+			// failing zone sub.alpha.test., not a name in it
+			names = append(names, "x\\.sub.alpha.test.", "x\\.sub.alpha.test.", "www.sub.alpha.test.")
+		}
+	}
 	if r.Chance(0.3) {
 		// three of gamma's four servers lame, the fourth healthy but slower: nothing of the
 		// zone has failed, so nothing of it may be suppressed
